@@ -218,6 +218,25 @@ impl Run {
     self.inconclusive.lock().unwrap().push(why.into());
   }
 
+  /// An individual case that could not be decided (watchdog, setup failure). The run only
+  /// becomes inconclusive as a whole if such cases exceed 10 % of the sub-check's evaluations.
+  pub fn note_inconclusive_case(&self, sub: &str, why: String) {
+    let mut e = self.extra.lock().unwrap();
+    let key = format!("undecided_cases:{}", sub);
+    let n = e.get(&key).and_then(|v| v.as_u64()).unwrap_or(0) + 1;
+    e.insert(key, json!(n));
+    let lk = format!("undecided_reasons:{}", sub);
+    let mut list = e.get(&lk).and_then(|v| v.as_array().cloned()).unwrap_or_default();
+    if list.len() < 5 {
+      list.push(json!(why));
+      e.insert(lk, Value::Array(list));
+    }
+  }
+
+  pub fn undecided(&self, sub: &str) -> u64 {
+    self.extra.lock().unwrap().get(&format!("undecided_cases:{}", sub)).and_then(|v| v.as_u64()).unwrap_or(0)
+  }
+
   pub fn n_violations(&self) -> usize {
     self.violations.lock().unwrap().len()
   }
